@@ -102,6 +102,7 @@ type hgen struct {
 	funcs     []string // callable names, arity 2 unless noted
 	arity     map[string]int
 	lastState int // index of the last input that changed state a function may depend on
+	scn       int
 }
 
 func (h *hgen) add(src string, stateChange bool) {
@@ -241,9 +242,59 @@ func (h *hgen) closures() {
 	}
 }
 
+// scenario: a caller whose result is remembered, then its callee / the global / the constant it depends on is changed
+// by a function (defined before the remembered call) in one of several ways, then the same call again.
+func (h *hgen) scenario() {
+	h.scn++
+	callee, caller, mut := fmt.Sprintf("sc%d", h.scn), fmt.Sprintf("sk%d", h.scn), fmt.Sprintf("sm%d", h.scn)
+	dep := h.pick([]string{"callee", "global", "constant"}, "dep")
+	h.add(fmt.Sprintf("%s = x => x + 1; sg%d = 1; SK%d = 1", callee, h.scn, h.scn), true)
+	switch dep {
+	case "callee":
+		h.add(fmt.Sprintf("%s = x => %s(x) * 10", caller, callee), true)
+		h.add(h.pick([]string{
+			fmt.Sprintf("%s = () => { old = %s; %s = x => x + 2; old }", mut, callee, callee),
+			fmt.Sprintf("%s = () => { %s = x => x + 2 }", mut, callee),
+			fmt.Sprintf("%s = () => { t = %s(5); %s = x => x + t; t }", mut, callee, callee),
+			fmt.Sprintf("%s = () => { inner = () => { old = %s; %s = x => x + 2 }; inner() }", mut, callee, callee),
+		}, "mutform"), true)
+	case "global":
+		h.add(fmt.Sprintf("%s = x => x + sg%d", caller, h.scn), true)
+		h.add(h.pick([]string{
+			fmt.Sprintf("%s = () => { old = sg%d; sg%d = old + 5; old }", mut, h.scn, h.scn),
+			fmt.Sprintf("%s = () => { sg%d++ }", mut, h.scn),
+		}, "mutform"), true)
+	default:
+		h.add(fmt.Sprintf("%s = x => x + SK%d", caller, h.scn), true)
+		h.add(fmt.Sprintf("%s = () => { old = SK%d; del(SK%d); SK%d = old + 5; old }", mut, h.scn, h.scn, h.scn), true)
+	}
+	call := fmt.Sprintf("println(%s(%s))", caller, h.pick([]string{"1", "2", "0.5"}, "scarg"))
+	h.add(call, false)
+	if rapid.Bool().Draw(h.t, "again") {
+		h.add(call, false)
+	}
+	h.add(fmt.Sprintf("println(catch(%s()).err)", mut), true)
+	h.add(call, false)
+	h.calls = append(h.calls, call)
+	pbt.Label("history:scenario-dependency-changed-by-a-function:" + dep)
+}
+
 func genHistory(t *rapid.T) (Case, int) {
 	h := &hgen{t: t, arity: map[string]int{}, lastState: -1}
 	h.add("g1 = 1; g2 = 0; K1 = 5", true)
+	// functions that change, from inside a function, what other functions depend on (defined first: a definition
+	// is itself a state change, the interesting histories have none between the remembered call and the mutation)
+	var mutators []string
+	if rapid.Bool().Draw(t, "mutators") {
+		target := fmt.Sprintf("l%d", rapid.IntRange(1, 4).Draw(t, "swaptarget"))
+		ftarget := fmt.Sprintf("f%d", rapid.IntRange(1, 4).Draw(t, "redeftarget"))
+		h.add(fmt.Sprintf("swapl = () => { old = %s; %s = (a, ..) => { [a, \"swapped\"] }; 1 }", target, target), true)
+		h.add("setg = v => { g1 = v; v }", true)
+		h.add(fmt.Sprintf("redeff = () => { func %s(a, ..) { [a, \"redefined\"] }; 2 }", ftarget), true)
+		h.add("bumpk = () => { del(K1); K1 = 9; K1 }", true)
+		h.add(fmt.Sprintf("swapread = () => { t = %s(1, 2); %s = (a, ..) => { [t, a] }; t }", target, target), true)
+		mutators = []string{"swapl()", "setg(7)", "setg(\"m\")", "redeff()", "bumpk()", "swapread()"}
+	}
 	n := rapid.IntRange(8, 40).Draw(t, "steps")
 	for i := 0; i < n; i++ {
 		switch rapid.IntRange(0, 19).Draw(t, "action") {
@@ -274,6 +325,17 @@ func genHistory(t *rapid.T) (Case, int) {
 					h.add(fmt.Sprintf("%s = (%s) => { %s }", name, strings.Join(params, ", "), h.body(name, params)), true)
 				}
 			}
+		case 13:
+			if rapid.IntRange(0, 2).Draw(t, "scenario") == 0 {
+				h.scenario()
+				break
+			}
+			if len(mutators) > 0 {
+				h.add("println(catch("+h.pick(mutators, "mutator")+"))", true)
+				pbt.Label("history:state-changed-from-inside-a-function")
+				break
+			}
+			h.add("println(g1, g2, K1)", false)
 		default:
 			h.add("println(g1, g2, K1)", false)
 		}
